@@ -290,6 +290,15 @@ func (pkt *Packet) authenticate(b []byte, key []byte) error {
 				return err
 			}
 			pkt.Cookies = append(pkt.Cookies, cookie)
+
+		case extCookiePlaceholder:
+			// A client may send its placeholders encrypted (RFC 8915 5.7).
+			cookie := CookiePlaceholder{extHdr: eh}
+			err = cookie.unpack(decrytedBuf, pos)
+			if err != nil {
+				return err
+			}
+			pkt.CookiePlaceholders = append(pkt.CookiePlaceholders, cookie)
 		}
 		pos += int(eh.Length) - 4
 	}
